@@ -578,6 +578,10 @@ def run(ctx):
     writer_emits(ctx, py, Wiring(py))
     one_line_per_instruction(ctx, py)
     metavar_step_shows_constraints(ctx, py)
+    # what is printed for a stack entry is the text of THAT entry: a cache / visited set keyed by hash(entry) or id(entry) hands one
+    # entry the text of another (the generated dataclass hashes ignore the class: EVar(1) and SVar(1) collide) - shared with C15
+    from .c15 import identity_by_hash
+    identity_by_hash(ctx, py, modules=('pretty_printing_interpreter',), what='pattern')
     ctx.floor('format-covers-deps', 28)
     ctx.floor('one-line-per-step', 60)
     ctx.explanation = (
